@@ -4,7 +4,7 @@
    [Print Assumptions] beneath.  The models are instantiated with the literals
    the translator read from hilbert_curve.rs / z_curve.rs (Gen/SfcGen.v). *)
 From Coupe Require Import Lib.Prelude Lib.SFloat Lib.Sorting Model.SfcPart
-  Proofs.SortingProofs Proofs.SfcProofs Proofs.ZCurveProofs Proofs.ZCheckProofs Proofs.ZOracleProofs Gen.SfcGen.
+  Proofs.SortingProofs Proofs.SfcProofs Proofs.ZCurveProofs Proofs.ZCheckProofs Proofs.ZOracleProofs Proofs.WqTermProofs Gen.SfcGen.
 From Coq Require Import Floats.SpecFloat Sorting.Permutation Sorting.Sorted.
 Open Scope nat_scope.
 
@@ -83,6 +83,23 @@ Theorem C09_hilbert_no_panic : forall tol maxo order fuel idx ws k p0,
   \/ hilbert_partition tol maxo order fuel idx ws k p0 = Err (InvalidOrder maxo order).
 Proof. exact hilbert_partition_no_panic. Qed.
 Print Assumptions C09_hilbert_no_panic.
+
+(* PARTIAL: termination of the quantile search is proved for part_count <= 2
+   only (a single split is a plain bisection; 66 rounds suffice for u64
+   indices).  For part_count >= 3 termination is an OPEN obligation: a split's
+   bounds are also reset from the other splits' positions, which need not be
+   sorted, and no decreasing measure is known (DESIGN §7 C01). *)
+Theorem C09_quantiles_terminate_partial : forall tol fuel pts ws n,
+  pts <> [] -> Forall (fun x => (x < 2 ^ 64)%N) pts -> 1 <= n <= 2 -> 66 <= fuel ->
+  exists splits, weighted_quantiles tol fuel pts ws n = Ok splits.
+Proof. exact weighted_quantiles_terminates_partial. Qed.
+Theorem C09_hilbert_returns_partial : forall tol maxo order fuel idx ws k p0,
+  length idx = length p0 -> Forall (fun x => (x < 2 ^ 64)%N) idx -> 1 <= k <= 2 -> 66 <= fuel ->
+  (exists p, hilbert_partition tol maxo order fuel idx ws k p0 = Ok p)
+  \/ hilbert_partition tol maxo order fuel idx ws k p0 = Err (InvalidOrder maxo order).
+Proof. exact hilbert_partition_terminates_partial. Qed.
+Print Assumptions C09_quantiles_terminate_partial.
+Print Assumptions C09_hilbert_returns_partial.
 
 (* the checker used on the implementation's outputs decides the property *)
 Theorem C09_check_monotone_ok : forall idx parts,
